@@ -1,9 +1,11 @@
 #!/usr/bin/env python3
-"""keep_seed.py <PROP> <k>: copies a confirmed sub-agent change from /tmp/wt/<PROP>/out/<k> into /verif/seeded/<PROP>-<k>/."""
+"""keep_seed.py <worktree name> <k>: copies a confirmed sub-agent change from /tmp/wt/<name>/out/<k> into /verif/seeded/."""
 import sys, os, shutil, json, re
-prop, k = sys.argv[1], sys.argv[2]
-src = f"/tmp/wt/{prop}/out/{k}"; dst = f"/verif/seeded/{prop}-{k}"
-log = open(f"/tmp/confirm_{prop}_{k}.log").read()
+wt, k = sys.argv[1], sys.argv[2]
+prop = re.sub(r"^r\d+", "", wt)
+rnd = re.match(r"^(r\d+)", wt)
+src = f"/tmp/wt/{wt}/out/{k}"; dst = f"/verif/seeded/{prop}-{rnd.group(1)+'-' if rnd else ''}{k}"
+log = open(f"/tmp/confirm_{wt}_{k}.log").read()
 m = re.search(r"SUMMARY without=(\d+) build=(\d+) with=(\d+) pinned=(\d+)", log)
 assert m, "no confirmation summary"
 w0, b, w1, t = map(int, m.groups())
@@ -24,7 +26,7 @@ meta = {
     "origin": "independent sub-agent given only the property record and a scratch worktree of /repo at HEAD (with the fix: commits)",
     "what_it_needs_to_manifest": " ".join(notes.split("\n\n")[1:3])[:900] if "\n\n" in notes else notes[:900],
     "confirmed": {
-        "where": f"scratch worktree /tmp/wt/{prop} (removed afterwards)",
+        "where": f"scratch worktree /tmp/wt/{wt} (removed afterwards)",
         "commands": ["bash demo/run.sh  (clean tree)", "git apply patch.diff && go build ./...", "bash demo/run.sh  (with change)", "go test ./pkg/fs -run 'TestFileInfo|TestFile_Name' -count=1  (with change)"],
         "demo_exit_without_change": w0, "build_exit": b, "demo_exit_with_change": w1, "pinned_tests_exit_with_change": t,
     },
